@@ -108,7 +108,7 @@ def gen_pds(rng):
 
 
 def gen_ini(rng, force=None):
-    shape = force or rng.choice(["cube", "box", "prism", "lshape", "ellipsoid", "ellipsoid", "ellipsoid", "two_tetra_one_vertex", "torus", "open_box", "fin_on_edge"])
+    shape = force or rng.choice(["cube", "box", "prism", "lshape", "tetra", "tetra", "ellipsoid", "ellipsoid", "ellipsoid", "two_tetra_one_vertex", "torus", "open_box", "fin_on_edge"])
     size = 5e-6
     rejected = shape in ("two_tetra_one_vertex", "torus", "open_box", "fin_on_edge")    # closed-looking or open inputs the acceptance gate must refuse
     if shape == "cube":
@@ -119,6 +119,10 @@ def gen_ini(rng, force=None):
         n, f = prism(rng.choice([3, 5, 6, 8]), 0.6, rng.uniform(0.6, 1.5))
     elif shape == "lshape":
         n, f = lshape(0.5)
+    elif shape == "tetra":
+        # sharp dihedral edges: ball pivoting regularly leaves several holes that the hole filler has to close
+        n = [[1.0, 1.0, 1.0], [1.0, -1.0, -1.0], [-1.0, 1.0, -1.0], [-1.0, -1.0, 1.0]]
+        n = [[x * 0.6 for x in p] for p in n]; f = [[0, 1, 2], [0, 3, 1], [0, 2, 3], [1, 3, 2]]
     elif shape == "two_tetra_one_vertex":
         # every edge has two faces, V - E + F = 3
         n = [[0, 0, 0], [1, 0, 0], [0, 1, 0], [0, 0, 1], [-1, 0, 0], [0, -1, 0], [0, 0, -1]]
@@ -140,7 +144,7 @@ def gen_ini(rng, force=None):
         n0, f0 = tissue.icosphere(rng.choice([1, 2]))
         ax = (rng.uniform(0.7, 1.3), rng.uniform(0.7, 1.3), rng.uniform(0.7, 1.3))
         n = [[p[0] * ax[0] * 0.6, p[1] * ax[1] * 0.6, p[2] * ax[2] * 0.6] for p in n0]; f = [list(t) for t in f0]
-    M = tissue.rnd_rot(rng); shift = rng.choice([(0, 0, 0), (3.0, -2.0, 1.0)])
+    M = tissue.rnd_rot(rng); shift = rng.choice([(0, 0, 0), (3.0, -2.0, 1.0)]) if shape != "tetra" else rng.choice([(3.0, -2.0, 1.0), (30.0, -20.0, 10.0)])
     n = tissue.transform(n, M, shift, (1, 1, 1))
     n = [[x * size for x in p] for p in n]
     wind = rng.choice(["outward", "outward", "inward", "mixed"])
@@ -149,13 +153,15 @@ def gen_ini(rng, force=None):
     elif wind == "mixed":
         f = [list(reversed(face)) if rng.random() < 0.5 else face for face in f]
     tri = rng.choice([1, 1, 1, 0]) if not rejected else (0 if force else rng.choice([0, 0, 1]))
+    if force == "tetra":
+        tri = 1
     if tri == 0:
         f2 = []
         for face in f:
             for i in range(1, len(face) - 1):
                 f2.append([face[0], face[i], face[i + 1]])
         f = f2
-    ratio = rng.choice([0.06, 0.1, 0.2, 0.35, 0.5])
+    ratio = rng.choice([0.06, 0.1, 0.2, 0.35, 0.5]) if shape != "tetra" else rng.choice([0.06, 0.1, 0.1, 0.2])
     lmin = ratio * size
     nc = rng.choice([1, 1, 2])
     ms = [mesh_tokens(n, f)]
@@ -228,7 +234,7 @@ def run(ck):
     # every surface the gate must refuse is presented once without reconstruction (all retries then fail in the acceptance step)
     import glob
     corpus = [json.load(open(f))["case"] for f in sorted(glob.glob(os.path.join(vlib.VERIF, "corpus", "C13", "*.json")))]   # earlier failures run first
-    cases = corpus + [gen_ini(rng, force=sh) for sh in ("two_tetra_one_vertex", "torus", "open_box", "fin_on_edge")] + [gen_ini(rng) for _ in range(nini)]
+    cases = corpus + [gen_ini(rng, force=sh) for sh in ("two_tetra_one_vertex", "torus", "open_box", "fin_on_edge")] + [gen_ini(rng, force="tetra") for _ in range(8 if ck.tier == "quick" else 60)] + [gen_ini(rng) for _ in range(nini)]
     from concurrent.futures import ThreadPoolExecutor
     def one(c):
         try:
@@ -266,6 +272,16 @@ def run(ck):
                               "a %s (%s windings, l_min/size %.2f) was reconstructed as a closed surface of %d nodes with zero enclosed volume (%.1e of the cell size cubed)" % (c["shape"], c["wind"], c["ratio"], nn, abs(sv) / scale))); break
             if not sv > 0:
                 fails.append(("returned_cell_is_oriented_outward", dict(input=c["line"][:50000]), "a %s (%s windings) was handed on inside out (signed volume %r)" % (c["shape"], c["wind"], sv))); break
+            # bounding box: every node of the reconstruction lies on (or, after the hole filling, within a couple of l_min of) the
+            # input surface, so its box cannot stick out of the input's box by more than that
+            if c["ratio"] <= 0.2 and not c.get("rejected"):
+                off = [c["lo"][k] + (0.0) for k in range(3)]
+                # the driver writes the cells of a case side by side along x (4 sizes apart): compare y and z, and x for single cells
+                axes = (0, 1, 2) if c["nc"] == 1 else (1, 2)
+                over = max([c["lo"][k] - bb[k] for k in axes] + [bb[3 + k] - c["hi"][k] for k in axes])
+                bbdev.append(over / c["lmin"])
+                if over > 3.0 * c["lmin"]:
+                    fails.append(("returned_cell_approximates_the_input", dict(input=c["line"][:50000], lmin_over_size=c["ratio"]), "the bounding box of the reconstructed %s sticks out of the input's by %.1f l_min (l_min/size %.2f)" % (c["shape"], over / c["lmin"], c["ratio"]))); break
             if c["wind"] != "mixed" and c["vol"] > 0:
                 dv = abs(vol - c["vol"]) / c["vol"]; voldev.append((c["ratio"], dv))
                 if dv > 0.5 and c["ratio"] <= 0.2:
@@ -275,6 +291,7 @@ def run(ck):
     ck.cov["traces_validated_against_impl"] = nst - len(broken)
     ck.notes["input_distribution"] = dict(sorted(dist.items()))
     ck.notes["startup_outcomes"] = outcomes
+    ck.notes["bounding_box_overshoot_in_lmin (max)"] = max(bbdev) if bbdev else None
     by = {}
     for r, d in voldev:
         by.setdefault(r, []).append(d)
